@@ -12,6 +12,13 @@
   fees of the named contracts, aggregation only converts collector balances, nothing reaches the DAO or
   the distributor.
 
+  PAGES.  `ForwardFees` asks each factory for ONE page of its listing (`start_after: None,
+  limit: Some(30)`; a factory returns the first `min(limit or 10, 30)` entries in storage-key order).
+  The model collects / aggregates exactly that page (`fwdVaults`, `fwdPools`); `collected` below is what
+  the page yields.  `every_registered_collected` says that with at most 30 registered pairs and at most
+  30 vaults the page is everything; `page_limits_documented` pins the numbers (regenerated from the
+  sources on every run), `default_page_misses_the_eleventh` shows what a shorter page loses.
+
   PARTIAL (by design, see DESIGN §5/C10): "a failed step leaves every balance unchanged" is CosmWasm's
   transaction atomicity.  In the model it holds by construction (`Res`: `.err`/`.panic` carry no state,
   `Feeflow.step` returns the old state's observation), so there is nothing to prove; on the real stack
@@ -23,9 +30,11 @@ import WW.Proofs.Collector
 namespace WW.C10
 open WW WW.Collector
 
-/-- what the collection phase moves into the collector for asset `i`: all pending vault fees, and every
-    pending entry of a registered pair that is above the pair's collectable minimum -/
-def collected (s : St) (i : Nat) : Nat := vaultsCollected i s.vaults + poolsCollected i s.pools
+/-- what the collection phase moves into the collector for asset `i`: all pending fees of the vaults on
+    the vault factory's page, and every pending entry above the pair's collectable minimum of the
+    registered pairs on the pool factory's page -/
+def collected (s : St) (i : Nat) : Nat :=
+  vaultsCollected (fwdVaults s) i s.vaults + poolsCollected (fwdPools s) i s.pools
 
 /-- **forward_auth** — only the fee distributor can trigger forwarding. -/
 theorem forward_auth (cfg : Cfg) (s : St) (sender epochId : Nat) (router : Nat → Nat → Nat → Nat)
@@ -95,8 +104,8 @@ theorem pipeline_conservation (cfg : Cfg) (s : St) (sender epochId : Nat) (route
     o.base = o.take + Distributor.amt o.inflow ∧
     o.st.bal cfg.dist = 0 := by
   obtain ⟨_, b2, in0, sw0, b3, in1, sw1, ha0, ha1, hle, ho⟩ := forwardFees_spec h
-  obtain ⟨e0, _⟩ := aggregate_spec _ _ _ _ _ _ _ _ _ _ (vaultAssets_ne cfg s.vaults) ha0
-  obtain ⟨e1, _⟩ := aggregate_spec _ _ _ _ _ _ _ _ _ _ (poolAssets_ne cfg _) ha1
+  obtain ⟨e0, _⟩ := aggregate_spec _ _ _ _ _ _ _ _ _ _ (vaultAssets_ne cfg _ s.vaults) ha0
+  obtain ⟨e1, _⟩ := aggregate_spec _ _ _ _ _ _ _ _ _ _ (poolAssets_ne cfg _ _) ha1
   rw [collectPools_apply, collectVaults_apply] at e0
   subst ho
   have hin : Distributor.amt (if b3 cfg.dist - takeOf s (b3 cfg.dist) = 0 then none
@@ -116,11 +125,13 @@ theorem untouched_or_swapped (cfg : Cfg) (s : St) (sender epochId : Nat) (router
     (acc : Nat → Nat → Nat) (o : Out) (h : forwardFees cfg s sender epochId router acc = .ok o)
     (i : Nat) (hi : i ≠ cfg.dist) :
     o.st.bal i = s.bal i + collected s i ∨
-    (o.st.bal i = 0 ∧ AGG_T < s.bal i + collected s i ∧ simOk (poolsAfter s.pools) (s.routes i) = true) := by
+    (o.st.bal i = 0 ∧ AGG_T < s.bal i + collected s i ∧
+      simOk (poolsAfter (fwdPools s) s.pools) (s.routes i) = true) := by
   obtain ⟨_, b2, in0, sw0, b3, in1, sw1, ha0, ha1, hle, ho⟩ := forwardFees_spec h
-  obtain ⟨_, f0⟩ := aggregate_spec _ _ _ _ _ _ _ _ _ _ (vaultAssets_ne cfg s.vaults) ha0
-  obtain ⟨_, f1⟩ := aggregate_spec _ _ _ _ _ _ _ _ _ _ (poolAssets_ne cfg _) ha1
-  have hb1 : collectPools s.pools (collectVaults s.vaults s.bal) i = s.bal i + collected s i := by
+  obtain ⟨_, f0⟩ := aggregate_spec _ _ _ _ _ _ _ _ _ _ (vaultAssets_ne cfg _ s.vaults) ha0
+  obtain ⟨_, f1⟩ := aggregate_spec _ _ _ _ _ _ _ _ _ _ (poolAssets_ne cfg _ _) ha1
+  have hb1 : collectPools (fwdPools s) s.pools (collectVaults (fwdVaults s) s.vaults s.bal) i =
+      s.bal i + collected s i := by
     rw [collectPools_apply, collectVaults_apply]; simp only [collected]; omega
   subst ho
   have hfin : upd b3 cfg.dist 0 i = b3 i := by simp [upd, hi]
@@ -138,12 +149,13 @@ theorem untouched_or_swapped (cfg : Cfg) (s : St) (sender epochId : Nat) (router
     | inl u1 => rw [u1]; exact ⟨w0.1, w0.2.1, w0.2.2.1⟩
     | inr w1 => exact ⟨w1.1, w0.2.1, w0.2.2.1⟩
 
-/-- pending fees after forwarding: every vault is emptied; a pair keeps exactly the entries that were at
-    or below its collectable minimum (or all of them when it is not registered), plus whatever the
-    aggregation swaps accrued -/
+/-- pending fees after forwarding: every vault on the vault factory's page is emptied; a pair keeps
+    exactly the entries that were at or below its collectable minimum (or all of them when it is not
+    registered / not on the pool factory's page), plus whatever the aggregation swaps accrued -/
 theorem pending_after (cfg : Cfg) (s : St) (sender epochId : Nat) (router : Nat → Nat → Nat → Nat)
     (acc : Nat → Nat → Nat) (o : Out) (h : forwardFees cfg s sender epochId router acc = .ok o) :
-    o.st.vaults = vaultsAfter s.vaults ∧ o.st.pools = addAcc acc 0 (poolsAfter s.pools) := by
+    o.st.vaults = vaultsAfter (fwdVaults s) s.vaults ∧
+    o.st.pools = addAcc acc 0 (poolsAfter (fwdPools s) s.pools) := by
   obtain ⟨_, b2, in0, sw0, b3, in1, sw1, _, _, _, ho⟩ := forwardFees_spec h
   subst ho
   exact ⟨rfl, rfl⟩
@@ -205,19 +217,22 @@ theorem direct_any_sender (cfg : Cfg) (s : St) (a b : Nat) (f : FeesFor) (router
     and the routes are untouched. -/
 theorem direct_collect_exact (s s' : St) (sender : Nat) (f : FeesFor) (h : collectFees s sender f = .ok s') :
     (∀ i, s'.bal i = s.bal i + directCollected s f i) ∧
-    (∀ i, s'.bal i + vaultsCollected i s'.vaults + poolsPending i s'.pools =
-          s.bal i + vaultsCollected i s.vaults + poolsPending i s.pools) ∧
+    (∀ i, s'.bal i + vaultsPending i s'.vaults + poolsPending i s'.pools =
+          s.bal i + vaultsPending i s.vaults + poolsPending i s.pools) ∧
     s'.dao = s.dao ∧ s'.trh = s.trh ∧ s'.rate = s.rate ∧ s'.active = s.active ∧ s'.daoSet = s.daoSet ∧
     s'.routes = s.routes := by
   refine ⟨fun i => (collectFees_spec h i).1, fun i => ?_, collectFees_rest h⟩
   obtain ⟨h1, h2⟩ := collectFees_spec h i
   omega
 
-/-- the pending ledgers after a direct `CollectFees` for a factory are those after the corresponding
-    stage of `ForwardFees` (`pending_after`); the other kind of contract is not touched -/
-theorem direct_collect_pending_after (s s' : St) (sender : Nat) :
-    (collectFees s sender .vaultFactory = .ok s' → s'.vaults = vaultsAfter s.vaults ∧ s'.pools = s.pools) ∧
-    (collectFees s sender .poolFactory = .ok s' → s'.pools = poolsAfter s.pools ∧ s'.vaults = s.vaults) := by
+/-- the pending ledgers after a direct `CollectFees` for a factory page are those after the corresponding
+    stage of `ForwardFees` (`pending_after`, whose page has `limit = FWD_LIMIT`); the other kind of
+    contract is not touched -/
+theorem direct_collect_pending_after (s s' : St) (sender : Nat) (lim : Option Nat) :
+    (collectFees s sender (.vaultFactory lim) = .ok s' →
+      s'.vaults = vaultsAfter (vaultListed s.vaults (vaultPage lim)) s.vaults ∧ s'.pools = s.pools) ∧
+    (collectFees s sender (.poolFactory lim) = .ok s' →
+      s'.pools = poolsAfter (poolListed s.pools (poolPage lim)) s.pools ∧ s'.vaults = s.vaults) := by
   constructor <;> intro h <;> simp only [collectFees] at h <;> injection h with h <;> subst h <;> exact ⟨rfl, rfl⟩
 
 /-- **direct_aggregate_only_converts** — a successful direct `AggregateFees` names a factory (never
@@ -228,7 +243,7 @@ theorem direct_collect_pending_after (s s' : St) (sender : Nat) :
 theorem direct_aggregate_only_converts (cfg : Cfg) (s s' : St) (sender : Nat) (f : FeesFor)
     (router : Nat → Nat → Nat → Nat) (acc : Nat → Nat → Nat) (inn : Nat) (sw : List (Nat × Nat × Nat))
     (h : aggregateFees cfg s sender f router acc = .ok (s', inn, sw)) :
-    (f = .vaultFactory ∨ f = .poolFactory) ∧
+    ((∃ lim, f = .vaultFactory lim) ∨ (∃ lim, f = .poolFactory lim)) ∧
     s'.bal cfg.dist = s.bal cfg.dist + inn ∧
     (∀ i, i ≠ cfg.dist →
       s'.bal i = s.bal i ∨ (s'.bal i = 0 ∧ AGG_T < s.bal i ∧ simOk s.pools (s.routes i) = true)) ∧
@@ -240,8 +255,8 @@ theorem direct_aggregate_only_converts (cfg : Cfg) (s s' : St) (sender : Nat) (f
   subst hs'
   refine ⟨?_, e0, fun i hi => ?_, rfl, rfl, rfl, rfl, rfl, rfl, rfl, rfl⟩
   · cases f with
-    | vaultFactory => exact Or.inl rfl
-    | poolFactory => exact Or.inr rfl
+    | vaultFactory lim => exact Or.inl ⟨lim, rfl⟩
+    | poolFactory lim => exact Or.inr ⟨lim, rfl⟩
     | wrongFactory => simp [aggCands] at hc
     | onePool k => simp [aggCands] at hc
     | oneVault k => simp [aggCands] at hc
@@ -282,6 +297,42 @@ theorem direct_ops_leave_distributor (cfg : Feeflow.Cfg) (s s' : Feeflow.St) (se
       rw [hc] at h; simp only at h; injection h with h; subst h
       exact ⟨rfl, rfl, rfl, (direct_aggregate_only_converts _ _ _ _ _ _ _ _ _ hc).2.2.2.2.2.1⟩
 
+/-! ### factory pages -/
+
+/-- the documented page sizes: `ForwardFees` asks for 30 entries, which both factories grant (maximum
+    30); without a limit a factory returns 10 (regenerated from the sources on every run; a changed
+    constant breaks this obligation) -/
+theorem page_limits_documented :
+    FWD_LIMIT = some 30 ∧ poolPage FWD_LIMIT = 30 ∧ vaultPage FWD_LIMIT = 30 ∧
+    poolPage none = 10 ∧ vaultPage none = 10 ∧ (∀ n, poolPage (some n) ≤ 30 ∧ vaultPage (some n) ≤ 30) := by
+  refine ⟨by decide, by decide, by decide, by decide, by decide, fun n => ⟨?_, ?_⟩⟩
+  · exact Nat.min_le_right _ _
+  · exact Nat.min_le_right _ _
+
+/-- **every_registered_collected** — with at most 30 registered pairs and at most 30 vaults (the page size
+    `ForwardFees` asks for and the factories grant) EVERY registered pair and EVERY vault is on its
+    factory's page at epoch creation, in whatever order they were created: all pending vault fees and
+    every pending entry above the collectable minimum of every registered pair are collected, every
+    vault is emptied, and a pair keeps only its sub-threshold entries (plus what the aggregation swaps
+    accrued). -/
+theorem every_registered_collected (cfg : Cfg) (s : St) (sender epochId : Nat) (router : Nat → Nat → Nat → Nat)
+    (acc : Nat → Nat → Nat) (o : Out) (hp : regCount s.pools ≤ 30) (hv : s.vaults.length ≤ 30)
+    (h : forwardFees cfg s sender epochId router acc = .ok o) :
+    (∀ p ∈ s.pools, fwdPools s p = p.reg) ∧ (∀ v ∈ s.vaults, fwdVaults s v = true) ∧
+    (∀ i, collected s i = vaultsPending i s.vaults + poolsCollected (·.reg) i s.pools) ∧
+    o.st.vaults = s.vaults.map (fun v => { v with pend := 0 }) ∧
+    o.st.pools = addAcc acc 0 (poolsAfter (·.reg) s.pools) := by
+  have hpl : ∀ p ∈ s.pools, fwdPools s p = p.reg :=
+    poolListed_of_regCount_le (n := poolPage FWD_LIMIT) (by rw [page_limits_documented.2.1]; exact hp)
+  have hvl : ∀ v ∈ s.vaults, fwdVaults s v = true :=
+    vaultListed_of_length_le (n := vaultPage FWD_LIMIT) (by rw [page_limits_documented.2.2.1]; exact hv)
+  obtain ⟨hva, hpa⟩ := pending_after cfg s sender epochId router acc o h
+  refine ⟨hpl, hvl, fun i => ?_, ?_, ?_⟩
+  · simp only [collected]
+    rw [vaultsCollected_all i s.vaults hvl, poolsCollected_congr i s.pools hpl]
+  · rw [hva, vaultsAfter_all s.vaults hvl]
+  · rw [hpa, poolsAfter_congr s.pools hpl]
+
 /-- the documented thresholds: a pair sends pending entries above 1000, the collector swaps balances
     above 1000 (regenerated from the sources on every run; a changed constant breaks this obligation) -/
 theorem thresholds_documented : PAIR_T = 1000 ∧ AGG_T = 1000 := by decide
@@ -320,13 +371,13 @@ example : (forwardFees cfg0 { st0 with pools := st0.pools.map fun p => { p with 
 /-- direct ops on `st0`, sent by a stranger (1002): `CollectFees` for the pool factory moves the 5000 uatom
     and the 1001 uwhale, the 1000 uwhale stay pending; for the vault factory the 2500 uusdc and 7 uwhale;
     naming pair 0 as a contract moves only its 5000 uatom -/
-example : ((collectFees st0 1002 .poolFactory).toOption.map fun s => (s.bal 0, s.bal 1, s.bal 2, s.dao)) =
+example : ((collectFees st0 1002 (.poolFactory (some 30))).toOption.map fun s => (s.bal 0, s.bal 1, s.bal 2, s.dao)) =
     some (5000, 0, 1041, 0) := by decide
-example : ((collectFees st0 1002 .poolFactory).toOption.map fun s =>
+example : ((collectFees st0 1002 (.poolFactory (some 30))).toOption.map fun s =>
     (s.pools.map (fun p => (p.pa, p.pb)), s.vaults.map (·.pend))) = some ([(0, 1000), (0, 0)], [7, 2500]) := by decide
-example : ((collectFees st0 1002 .vaultFactory).toOption.map fun s => (s.bal 0, s.bal 1, s.bal 2)) =
+example : ((collectFees st0 1002 (.vaultFactory (some 30))).toOption.map fun s => (s.bal 0, s.bal 1, s.bal 2)) =
     some (0, 2500, 47) := by decide
-example : ((collectFees st0 1002 .vaultFactory).toOption.map fun s =>
+example : ((collectFees st0 1002 (.vaultFactory (some 30))).toOption.map fun s =>
     (s.pools.map (fun p => (p.pa, p.pb)), s.vaults.map (·.pend))) = some ([(5000, 1000), (0, 1001)], [0, 0]) := by decide
 example : ((collectFees st0 1002 (.onePool 0)).toOption.map fun s =>
     (s.bal 0, s.bal 1, s.bal 2, s.pools.map (fun p => (p.pa, p.pb)))) =
@@ -336,10 +387,41 @@ example : (collectFees st0 1002 (.onePool 9)).isOk = false ∧ (collectFees st0 
 /-- after the vault collection a direct `AggregateFees` (vault factory) swaps the 2500 uusdc for 2400 uwhale,
     which stay in the collector: nothing for the DAO although the take rate is active -/
 def agg0 : Option (St × Nat × List (Nat × Nat × Nat)) :=
-  (collectFees st0 1002 .vaultFactory).toOption.bind fun s =>
-    (aggregateFees cfg0 s 1002 .vaultFactory (fun _ _ _ => 2400) (fun _ _ => 0)).toOption
+  (collectFees st0 1002 (.vaultFactory (some 30))).toOption.bind fun s =>
+    (aggregateFees cfg0 s 1002 (.vaultFactory (some 30)) (fun _ _ _ => 2400) (fun _ _ => 0)).toOption
 example : agg0.map (fun r => (r.1.bal 0, r.1.bal 1, r.1.bal 2, r.1.dao)) = some (0, 0, 2447, 0) := by decide
 example : agg0.map (fun r => (r.1.trh, r.2.1, r.2.2)) = some ([], 2400, [(0, 1, 2500)]) := by decide
 example : (aggregateFees cfg0 st0 1000 (.onePool 0) (fun _ _ _ => 0) (fun _ _ => 0)).isOk = false := by decide
+
+/-! ### non-vacuity of the page theorems -/
+
+/-- 12 vaults, one per asset 0 … 11, CREATED in descending asset order (asset 11 first) with 100 + asset
+    pending each; 12 registered pairs `(k+3) / 2`, k = 11 … 0 in creation order, with 2000 + k pending in
+    asset `k+3`.  The factories list in key order: the vault of asset 0 first; pair keys `(2,3) (2,4) …` -/
+def vs12 : List Vault := (List.range 12).reverse.map fun a => { asset := a, pend := 100 + a }
+def ps12 : List Pool :=
+  (List.range 12).reverse.map fun k => { a := k + 3, b := 2, reg := true, on := true, pa := 2000 + k, pb := 0 }
+def st12 : St := { st0 with pools := ps12, vaults := vs12, routes := fun _ => [], bal := fun _ => 0 }
+def cfg12 : Cfg := { cfg0 with nassets := 15 }
+
+example : regCount st12.pools ≤ 30 ∧ st12.vaults.length ≤ 30 ∧ regCount st12.pools = 12 := by decide
+
+/-- `ForwardFees` (page of 30) empties all 12 vaults and collects all 12 pairs … -/
+example : ((forwardFees cfg12 st12 2000 5 (fun _ _ _ => 0) (fun _ _ => 0)).toOption.map fun o =>
+    (o.st.vaults.map (·.pend), o.st.pools.map (·.pa))) =
+    some ([0, 0, 0, 0, 0, 0, 0, 0, 0, 0, 0, 0], [0, 0, 0, 0, 0, 0, 0, 0, 0, 0, 0, 0]) := by decide
+
+/-- **default_page_misses_the_eleventh** … whereas a page without a limit (the factories' default of 10)
+    stops after the 10 smallest KEYS: the vaults of assets 10 and 11 and the pairs `13/2`, `14/2` — the
+    FIRST ones created — keep their pending fees. -/
+theorem default_page_misses_the_eleventh :
+    ((collectFees st12 1002 (.vaultFactory none)).toOption.map fun s => s.vaults.map (·.pend)) =
+      some [111, 110, 0, 0, 0, 0, 0, 0, 0, 0, 0, 0] ∧
+    ((collectFees st12 1002 (.poolFactory none)).toOption.map fun s => s.pools.map (·.pa)) =
+      some [2011, 2010, 0, 0, 0, 0, 0, 0, 0, 0, 0, 0] ∧
+    ((collectFees st12 1002 (.poolFactory (some 11))).toOption.map fun s => s.pools.map (·.pa)) =
+      some [2011, 0, 0, 0, 0, 0, 0, 0, 0, 0, 0, 0] ∧
+    ((collectFees st12 1002 (.poolFactory (some 99))).toOption.map fun s => s.pools.map (·.pa)) =
+      some [0, 0, 0, 0, 0, 0, 0, 0, 0, 0, 0, 0] := by decide
 
 end WW.C10
